@@ -43,6 +43,7 @@ mod trav;
 mod varc;
 mod vars;
 mod stackm;
+mod bytecodem;
 mod glyfm;
 mod varsm;
 mod layoutm;
@@ -95,6 +96,7 @@ pub const GROUPS: &[(&str, fn(&mut Ctx))] = &[
     ("text.model", textm::run),
     ("aats.model", aatsm::run),
     ("ps.stack.model", stackm::run),
+    ("glyf.bytecode.model", bytecodem::run),
 ];
 
 /// plumbing self-test groups (only with `C01_HAND_SELFTEST=1`): a call that never returns and a call
